@@ -229,8 +229,50 @@ func genC04mcts(c *Ctx) {
 			c.Count("mcts.opening-ply")
 		}
 	}
+	genC04mctsReserves(c)
 }
 
 func init() {
 	genTable["C04mcts"] = genC04mcts
+}
+
+// one move from a road, with the mover's reserve nearly or wholly gone: only capstones left, only flats left, one piece
+// of each, custom piece counts - a shortcut that proposes "the" road-completing placement must still offer a legal one
+func genC04mctsReserves(c *Ctx) {
+	n := c.Scale(160, 8000)
+	for i := 0; i < n; i++ {
+		size := 3 + c.R.Intn(6)
+		p := gapBoard(c.R, size, c)
+		raw := p.VerifRaw()
+		stones, caps := &raw.WS, &raw.WC
+		if p.ToMove() == tak.Black {
+			stones, caps = &raw.BS, &raw.BC
+		}
+		switch c.R.Intn(4) {
+		case 0:
+			*stones, *caps = 0, 1
+			c.Count("mcts.reserve=caps-only")
+		case 1:
+			*stones, *caps = 1, 0
+			c.Count("mcts.reserve=one-flat")
+		case 2:
+			*stones, *caps = 0, byte(1+c.R.Intn(2))
+			raw.Pieces, raw.Capstones = size, 2
+			c.Count("mcts.reserve=caps-only-custom-config")
+		default:
+			*stones, *caps = byte(1+c.R.Intn(3)), byte(c.R.Intn(2))
+			c.Count("mcts.reserve=few")
+		}
+		if raw.Move < 2 {
+			raw.Move += 2
+		}
+		q := tak.VerifFromRaw(raw)
+		if over, _ := q.GameOver(); over {
+			c.Count("mcts.reserve.skipped-over")
+			continue
+		}
+		policy := []string{"-", "uniform", "place_win"}[c.R.Intn(3)]
+		out := c.Emit("mcts " + policy + " 0 " + strconv.Itoa(60+c.R.Intn(60)) + " " + strconv.Itoa(1+c.R.Intn(1000000)) + " " + encPos(q))
+		c.Count("mcts.reserve." + strings.SplitN(out, ":", 2)[0])
+	}
 }
